@@ -37,12 +37,20 @@ Definition parse_calls : list (string * list string) :=
   ; ("et:34824", leaf_calls) ; ("et:34826", leaf_calls) ; ("et:34969", leaf_calls) ; ("et:35020", leaf_calls)
   ; ("et:35085", leaf_calls) ; ("et:35130", leaf_calls)
   ; ("et:default", [])
+  (* the helpers on Parse's steady-state path (whole bodies; ".fast" = findOrCreateHostWithLock up to its first return) *)
+  ; ("fn:echoNotify", [".Lock"; ".Unlock"; "close"; "delete"])
+  ; ("fn:findOrCreateHostWithLock", [".IP"; ".Lock"; ".Msg"; ".RLock"; ".RUnlock"; ".Struct"; ".Unlock"; ".Write"; ".deleteHost";
+                                     ".findOrCreate"; ".printHostTable"; "FindManufacturer"; "append"; "bytes.Equal"; "time.Now"])
+  ; ("fn:findOrCreateHostWithLock.fast", [".Lock"; ".RLock"; ".RUnlock"; ".Unlock"; "bytes.Equal"; "time.Now"])
+  ; ("fn:hostOnline", [".Lock"; ".Unlock"; ".onlineTransition"])
+  ; ("fn:onlineTransition", [".IP"; ".Is4"; ".IsGlobalUnicast"; ".IsInfo"; ".IsLinkLocalUnicast"; ".Msg"; ".Struct"; ".Write"])
   ; ("proto:1", [".EchoID"; ".IP4"; ".IsValid"; ".Payload"; ".Type"; ".Version"; "echoNotify"])
   ; ("proto:17", [".DstPort"; ".HeaderLen"; ".IsValid"; ".Payload"; ".SrcPort"])
   ; ("proto:2", [])
   ; ("proto:58", [".EchoID"; ".IP6"; ".IsValid"; ".Payload"; ".Type"; ".Version"; "echoNotify"])
   ; ("proto:6", [".DstPort"; ".IsValid"; ".Payload"; ".SrcPort"])
   ; ("top", [".Dst"; ".EtherType"; ".HeaderLen"; ".IsValid"; ".Src"; "IsUnicastMAC"]) ].
+
 
 Fixpoint calls_of (b : string) (t : list (string * list string)) : option (list string) :=
   match t with
@@ -53,6 +61,18 @@ Fixpoint calls_of (b : string) (t : list (string * list string)) : option (list 
 Definition show_calls (b : string) : option string :=
   if String.eqb b "branches" then Some (join "," (map fst parse_calls))
   else option_map (fun l => match l with [] => "-" | _ => join "," l end) (calls_of b parse_calls).
+
+(* inside the helpers: what can allocate there.  Building a log line (Msg .. Write; Struct boxes its argument), growing
+   the tables (append, findOrCreate, deleteHost, printHostTable, FindManufacturer's map lookup returns a string).  Mutex
+   operations, close / delete on the waiter map, bytes.Equal, time.Now and the netip predicates do not. *)
+Definition helper_may_alloc (name : string) : bool :=
+  existsb (String.eqb name) [".Msg"; ".Struct"; ".IP"; ".Write"; "append"; ".findOrCreate"; ".deleteHost"; ".printHostTable";
+                             "FindManufacturer"; ".onlineTransition"].
+Definition helper_alloc_free (b : string) : bool :=
+  match calls_of b parse_calls with
+  | Some l => forallb (fun n => negb (helper_may_alloc n)) l
+  | None => false
+  end.
 
 (* does a branch call something of this kind? *)
 Definition is_kind (k : alloc_kind) (name : string) : bool :=
